@@ -258,6 +258,14 @@ def run_case(ctx, d, frame=None, what="add_frame_result"):
     gt_frames = build_gt_frames(d, frame)
     mgr.ground_truth_frames = gt_frames
     est_lists, results = [], []
+    # every frame's critical filter / pass-fail configuration is prepared up front (several configuration objects are
+    # alive at once; each frame must be judged by ITS configuration, not by the one constructed last)
+    crits, pfs = None, None
+    with ctx.under_test("CriticalObjectFilterConfig / PerceptionPassFailConfig"):
+        crits = [crit_config(mgr, d, f) for f in d["frames"]]
+        pfs = [pf_config(mgr, d, f) for f in d["frames"]]
+    if crits is None or pfs is None:
+        return None
     for i, f in enumerate(d["frames"]):
         t = D.T0 + i * 100_000
         ests = D.objs3d(f["est"], frame, f["ego"], t)
@@ -272,8 +280,8 @@ def run_case(ctx, d, frame=None, what="add_frame_result"):
                 unix_time=t,
                 ground_truth_now_frame=now,
                 estimated_objects=list(ests),
-                critical_object_filter_config=crit_config(mgr, d, f),
-                frame_pass_fail_config=pf_config(mgr, d, f),
+                critical_object_filter_config=crits[i],
+                frame_pass_fail_config=pfs[i],
             )
         if res is None:
             return None
@@ -608,6 +616,26 @@ def run_case2d(ctx, d, what="add_frame_result(2D)"):
     gt_frames = [FrameGroundTruth(D.T0 + i * 100_000, str(i), D.objs2d(f["gt"], D.T0 + i * 100_000)) for i, f in enumerate(d["frames"])]
     mgr.ground_truth_frames = gt_frames
     est_lists, results = [], []
+    crits, pfs = [], []
+    with ctx.under_test("CriticalObjectFilterConfig / PerceptionPassFailConfig (2D)"):
+        for f in d["frames"]:  # all configurations prepared up front, see run_case
+            crits.append(
+                CriticalObjectFilterConfig(
+                    evaluator_config=mgr.evaluator_config,
+                    target_labels=list(d["targets"]),
+                    confidence_threshold_list=list(f["crit"]["conf"]) if f["crit"].get("conf") is not None else None,
+                    target_uuids=list(f["crit"]["uuids"]) if f["crit"].get("uuids") is not None else None,
+                )
+            )
+            pfs.append(
+                PerceptionPassFailConfig(
+                    evaluator_config=mgr.evaluator_config,
+                    target_labels=list(d["targets"]),
+                    matching_threshold_list=list(f["pf"]) if f["pf"] is not None else None,
+                )
+            )
+    if len(crits) != len(d["frames"]) or len(pfs) != len(d["frames"]):
+        return None
     for i, f in enumerate(d["frames"]):
         t = D.T0 + i * 100_000
         ests = D.objs2d(f["est"], t)
@@ -615,18 +643,7 @@ def run_case2d(ctx, d, what="add_frame_result(2D)"):
         res = None
         with ctx.under_test(what):
             now = mgr.get_ground_truth_now_frame(t)
-            crit = CriticalObjectFilterConfig(
-                evaluator_config=mgr.evaluator_config,
-                target_labels=list(d["targets"]),
-                confidence_threshold_list=list(f["crit"]["conf"]) if f["crit"].get("conf") is not None else None,
-                target_uuids=list(f["crit"]["uuids"]) if f["crit"].get("uuids") is not None else None,
-            )
-            pf = PerceptionPassFailConfig(
-                evaluator_config=mgr.evaluator_config,
-                target_labels=list(d["targets"]),
-                matching_threshold_list=list(f["pf"]) if f["pf"] is not None else None,
-            )
-            res = mgr.add_frame_result(unix_time=t, ground_truth_now_frame=now, estimated_objects=list(ests), critical_object_filter_config=crit, frame_pass_fail_config=pf)
+            res = mgr.add_frame_result(unix_time=t, ground_truth_now_frame=now, estimated_objects=list(ests), critical_object_filter_config=crits[i], frame_pass_fail_config=pfs[i])
         if res is None:
             return None
         results.append(res)
